@@ -124,6 +124,15 @@ def main():
     from pyvc import run as pyrun
     timeout = 20.0 if tier == "quick" else 90.0
     results = [] if a.no_prove else pyrun.verify(props=[pid], timeout_s=timeout, repo=REPO)
+    if results and tier == "quick":
+        # retry ladder: a function with an undischarged (unknown) obligation is verified once more with a long budget,
+        # so that verdicts do not flip when the machine is busy
+        slow = sorted({r["function"].split("[")[0] for r in results
+                       if any(o["status"] == "unknown" for o in r["obligations"])})
+        if slow:
+            again = pyrun.verify(props=[pid], functions=slow, timeout_s=90.0, repo=REPO)
+            by = {r["function"]: r for r in again}
+            results = [by.get(r["function"], r) for r in results]
     trusted = pyrun.trusted([pid])
     lock = json.load(open(LOCK)) if os.path.exists(LOCK) else {}
     locked = lock.get(pid, {}).get("obligations", {})
